@@ -173,7 +173,10 @@ def check_weights(case):
     q = case["q"]
     facts = _facts(case)
     wi = np.array(case["w"][:n], dtype=np.int64)
-    if np.linalg.matrix_rank(np.hstack([X, np.ones((n, 1))])) < d + 1:
+    for zi in case.get("zero_w", []):
+        wi[zi % n] = 0                 # weight zero == the row repeated zero times
+    keep = wi > 0
+    if np.linalg.matrix_rank(np.hstack([X, np.ones((n, 1))])) < d + 1 or keep.sum() < d + 3 or np.linalg.matrix_rank(np.hstack([X[keep], np.ones((int(keep.sum()), 1))])) < d + 1:
         return Outcome(["rank-deficient-skipped"], False)
     kw = dict(quantile=q, max_iter=case["max_iter"], fit_intercept=case["fit_intercept"], positive=case["positive"])
     a = _Q(**kw).fit(X, y, sample_weight=wi.astype(np.float64))
@@ -184,8 +187,8 @@ def check_weights(case):
     tol = (1e-4 if case["positive"] else 1e-8) * (1 + float(np.abs(y).max()))
     require(bool(np.all(np.abs(pa - pb) <= tol)), "weights:not-duplication",
             "max prediction difference %.3g between integer weights and repeated rows" % float(np.abs(pa - pb).max()), facts)
-    return Outcome(["max_iter=%d" % case["max_iter"], "q=0.5" if q == 0.5 else "q!=0.5", "non-uniform" if wi.min() != wi.max() else "uniform"],
-                   wi.min() != wi.max())
+    return Outcome(["max_iter=%d" % case["max_iter"], "q=0.5" if q == 0.5 else "q!=0.5", "non-uniform" if wi.min() != wi.max() else "uniform",
+                    "zero-weights" if (wi == 0).any() else "no-zero-weight"], wi.min() != wi.max())
 
 
 _g = st.integers(-32, 32).map(lambda v: v / 8.0)
@@ -225,6 +228,7 @@ CLAUSES = [
            doc="optimality against the exact LP optimum, q vs 1-q, fraction below, positive / fit_intercept flags"),
     Clause("score", check_score, strategy=lambda tier: _cases(tier, for_score=True), quick=800, thorough=12000, quick_shards=8,
            doc="score == 2 * mean pinball loss of the estimator's own quantile; MAE at 0.5; monotone in the true loss"),
-    Clause("weights", check_weights, strategy=lambda tier: _cases(tier, weighted=True), quick=400, thorough=6000, quick_shards=4,
+    Clause("weights", check_weights, strategy=lambda tier: st.builds(lambda c, z: dict(c, zero_w=z), _cases(tier, weighted=True),
+                                                                     st.one_of(st.just([]), st.lists(st.integers(0, 59), min_size=1, max_size=4))), quick=400, thorough=6000, quick_shards=4,
            doc="integer sample weights == repeated rows"),
 ]
